@@ -1492,6 +1492,88 @@ class Checker:
             self.viol('srvhello:reneg-status', 'reneg status %d after a ServerHello %s renegotiation_info'
                       % (case['renegst'], 'with' if reneg_echo else 'without'), case)
 
+    # ---- a resumption attempt on used contexts (kind "resume")
+    def check_resume(self, case):
+        """Second connection on the contexts of a first one, the client offering the session, both configurations
+        possibly changed in between (C and S are the configurations of the second connection).  Rules:
+          * the handshake is abbreviated only if the first connection completed and its version and suite are still
+            acceptable to both sides (inside both version ranges, in both suite lists): the property C17 / the
+            header (br_ssl_client_reset resume_session, br_ssl_server_set_cache); it then keeps that version, suite;
+          * otherwise the outcome is that of a fresh negotiation of the two current configurations (negotiate());
+            an abbreviated handshake is also admitted to fail over to nothing else: if a fresh negotiation would
+            succeed, the second connection completes one way or the other;
+          * the protocol name is negotiated anew in every handshake (RFC 7301 3.1; the header documents
+            br_ssl_engine_get_selected_protocol for "the handshake"): both sides report the reference's name for
+            the current lists; with BR_OPT_FAIL_ON_ALPN_MISMATCH and no common name: alert 120;
+          * the server reports the server name of the second ClientHello."""
+        C, S, oc, osv = case['C'], case['S'], case['oc'], case['os']
+        self.stat('cases_resume')
+        if side_ok(C, True) or side_ok(S, False):
+            self.stat('unjudged_precondition')
+            return
+        if case['reset'] != [1, 1]:
+            self.viol('reset-failed', 'reset returned %s for a supported configuration' % case['reset'], case)
+            return
+        if case.get('mon_failed'):
+            self.stat('unjudged_monitor_failed')
+            return
+        o = offer_from_config(C)
+        e = negotiate(o, S)
+        ok1, v1, s1 = case['first']
+        acceptable = bool(ok1) and C['vmin'] <= v1 <= C['vmax'] and S['vmin'] <= v1 <= S['vmax'] \
+            and s1 in C['suites'] and s1 in S['suites']
+        both_done = oc['done'] and osv['done']
+        abbr = bool(case['abbreviated'])
+        self.stat('resume_session_acceptable' if acceptable else 'resume_session_not_acceptable')
+        if e.status in ('unjudged',):
+            self.stat('unjudged_doc_silent')
+            return
+        if abbr and both_done:
+            self.stat('cmp_resume_abbreviated')
+            if not acceptable:
+                self.viol('resume:abbreviated-with-unacceptable-session', 'abbreviated handshake although the remembered version %04x / suite %04x '
+                          'is not acceptable to both current configurations' % (v1, s1), case)
+                return
+            for who, ob in (('client', oc), ('server', osv)):
+                if ob['ver'] != v1 or ob['suite'] != s1:
+                    self.viol('resume:parameters-differ', '%s reports %04x/%04x after resuming a %04x/%04x session'
+                              % (who, ob['ver'], ob['suite'], v1, s1), case)
+                    return
+        elif both_done:
+            self.stat('cmp_resume_full')
+            if e.status != 'ok':
+                self.viol('unexpected-success', 'handshake completed although: %s' % e.why, case)
+                return
+            for who, ob in (('client', oc), ('server', osv)):
+                if ob['ver'] != e.version or ob['suite'] != e.suite:
+                    self.viol('resume:full-handshake-parameters', '%s reports %04x/%04x, reference negotiation %04x/%04x'
+                              % (who, ob['ver'], ob['suite'], e.version, e.suite), case)
+                    return
+        else:
+            self.stat('cmp_resume_failed')
+            if e.status == 'ok':
+                self.viol('resume:failed-although-negotiable', 'second connection failed (client err %d, server err %d, alerts %s) although the '
+                          'current configurations negotiate version %04x suite %04x%s'
+                          % (oc['err'], osv['err'], case['alerts'], e.version, e.suite,
+                             '' if acceptable else ' and the session is no longer acceptable (a full handshake is due)'), case)
+            elif e.status == 'alert':
+                self._check_alert(case, e)
+            return
+        # completed: protocol and server names are those of this connection
+        want_proto = e.alpn.decode() if (e.status == 'ok' and e.alpn is not None) else None
+        if e.status == 'ok':
+            for who, ob in (('client', oc), ('server', osv)):
+                self.stat('cmp_resume_alpn')
+                if ob['proto'] != want_proto:
+                    self.viol('resume:alpn-mismatch', '%s reports protocol %r after a %s handshake, reference for the current lists %r'
+                              % (who, ob['proto'], 'resumed' if abbr else 'full', want_proto), case)
+                    return
+        want_name = o.sni if o.sni is not None else b''
+        self.stat('cmp_resume_sni')
+        if bytes.fromhex(osv['name']) != want_name:
+            self.viol('resume:sni-mismatch', 'server reports server name %r, the second ClientHello carried %r'
+                      % (bytes.fromhex(osv['name']), want_name), case)
+
     def check_line(self, line):
         try:
             case = json.loads(line)
@@ -1501,7 +1583,9 @@ class Checker:
             return
         self.stat('cases_checked')
         try:
-            if case['kind'] == 'scripted':
+            if case['kind'] == 'resume':
+                self.check_resume(case)
+            elif case['kind'] == 'scripted':
                 self.check_scripted(case)
             elif case['kind'] == 'scripted_srv':
                 self.check_scripted_srv(case)
